@@ -68,7 +68,8 @@ def gen_c_obligations(tu, R, names, rep, only=None):
             continue
         info = tu.function_info(nm)
         info.update({'obligations': len(obs), 'loops': ex.nloops, 'callee_contracts': sorted(set(ex.calls)),
-                     'paths_pruned_infeasible': ex.pruned, 'returns': len(ex.returns)})
+                     'paths_pruned_infeasible': ex.pruned, 'returns': len(ex.returns),
+                     'frame_alias_lemmas': dict(ex.alias_stats)})
         rep.functions.append(info)
         # vacuity: precondition satisfiable, every return reachable
         covers = [smt.Ob("%s:%s:cover:pre" % (info['file'].split('/')[-1], nm), ex.global_hyps + ex.pre_pc,
@@ -91,6 +92,16 @@ def _called_models(ex):
 
 def run_obligations(rep, obs, timeout_s, covers=()):
     res = smt.discharge(list(obs) + list(covers), timeout_s=timeout_s)
+    # second chance for what the budget left open (a loaded machine stretches every query): only those few,
+    # few at a time, with a doubled budget.  A verdict is only ever upgraded from undecided.
+    again = [k for k, (ob, v, _i) in enumerate(res) if v == 'undecided' and ob.kind != 'cover']
+    if again and len(again) <= 8:
+        res2 = smt.discharge([res[k][0] for k in again], timeout_s=2 * timeout_s, procs=min(4, len(again)))
+        for k, r2 in zip(again, res2):
+            r2[2]['retried'] = True
+            r2[2]['time'] = r2[2].get('time', 0) + res[k][2].get('time', 0)
+            res[k] = r2
+        rep.notes.append("%d obligation(s) left open by the first pass were retried with a doubled budget" % len(again))
     for ob, verdict, info in res:
         if ob.kind == 'cover':
             rep.covers['checked'] += 1
@@ -262,6 +273,8 @@ def finish(rep, level='proof', technique='', trusted_base=(), checker_cmd='', ex
             'bounded_stand_ins': rep.bounded,
             'backends': _backends(rep),
             'solver_seconds': round(sum(i.get('time', 0) for _, _, i in rep.results), 2),
+            'slowest_obligations': [[o.name, round(i.get('time', 0), 1), i.get('backend', '?')] for o, _, i in
+                                    sorted(rep.results, key=lambda r: -r[2].get('time', 0))[:5]],
             'samples': samples or [o.name for o, _, _ in rep.results[:12]],
             'obligation_verdicts': {o.name: v for o, v, _ in rep.results},
             'known_findings_printed': rep.known,
